@@ -11,6 +11,7 @@ count/order, the text/binary flag against the produced bytes, the per-object ser
 import copy
 import random
 
+from vf import c03_deep as D
 from vf import wamp_grammar as G
 from vf.runner import h
 
@@ -26,13 +27,21 @@ RULE = ("for each of the 25 message classes the grammar table enumerates option 
         "rotated per case (ids 0/1/2^53, forward_for chains of length 0-3, every enum value, role feature dictionaries) and "
         "application payloads drawn from a recursive generator (ints up to 2^53 both signs, floats, bool, None, unicode "
         "incl. astral/combining/control characters, bytes, lists/dicts to depth 4). Every message goes through marshal->parse "
-        "directly and through 8 serializer variants; heterogeneous batches of 1/2/3/17 messages; cache attack. A case is "
-        "non-trivial when a serializer returned a message that was compared attribute by attribute; distinct = "
-        "(class, option subset, payload mode, serializer variant).")
+        "directly and through 8 serializer variants; heterogeneous batches of 1/2/3/17 messages; cache attack (A, B, mutate+"
+        "uncache) and cache sequences (programs of serialize / mutate+uncache / continue-with-the-received-object steps over "
+        "3-8 serializer instances); messages whose serialized size brackets 2^16 and exceeds 2^20 octets (alone and inside "
+        "mixed batches). Thorough adds: 4 draws per (subset, mode); 6 sub-seeds' worth of re-seeded random subsets / value "
+        "rotations x all payload modes with a deep payload generator (depth 8 / 24, containers up to 21 elements, strings and "
+        "binaries up to 8 KiB, every integer width boundary within +-2^53, binary64 edge values; NaN/+-inf only through "
+        "MsgPack and CBOR, subnormals not through UBJSON); about 470 huge messages (6 payload shapes x 7 classes + 12 "
+        "non-payload fields x sizes around 2^16 and 2^20, one beyond 2^24 octets per shard); batches of 1/2/3/5/17/64/257 "
+        "(every other small batch from fresh, uncached objects). A case is non-trivial when a serializer returned a message "
+        "that was compared attribute by attribute; distinct = (class, option subset, payload mode, serializer variant).")
 ASSUMPTIONS = [
     "oracle = vf/wamp_grammar.py (written from the WAMP spec; cross-checked against the code at start-up: a key/attribute/class the code knows and the table does not makes the run INCONCLUSIVE)",
     "equivalences not counted as a change: tuple==list; absent option == None == its spec default (bool flags, match=exact, invoke=single); empty args/kwargs == absent; forward_for [] == absent; free-text message '' == absent; empty authextra/extra/custom dict == absent; float -0.0 == 0.0",
-    "JSON: text strings starting with U+0000 are not sent (reserved prefix of the WAMP JSON binary convention); dict keys are str; no NaN/inf, no subnormal floats (bjdata turns them into Decimal; floats are not in the statement's list), ints limited to +-2^53",
+    "JSON: text strings starting with U+0000 are not sent (reserved prefix of the WAMP JSON binary convention); dict keys are str; ints limited to +-2^53 for every serializer (the statement's claim; larger integers are unspecified and not generated)",
+    "floats are not in the statement's list; they are generated where the wire format specifies binary64 transport and compared NaN-aware: NaN/+-inf only through MsgPack and CBOR (RFC 8259 has no such tokens; UBJSON says 'encode as null', BJData says IEEE 754 - unspecified, kept out), subnormal and smallest-normal doubles through JSON/MsgPack/CBOR but not UBJSON (the bjdata encoder leaves binary64 below 2.23e-308 and produces its Decimal type - third-party behaviour outside the statement)",
     "admissibility constraints taken from the library's own documented constructor contracts: resume-session needs resume-token, WELCOME.resumable needs resume_token, UNSUBSCRIBED/UNREGISTERED carry a subscription/registration detail only with request==0, opaque payload always comes with enc_algo",
     "an EMPTY opaque payload (payload=b'' + enc_algo) counts as an admissible payload-transparency triple: the constructors assert only `payload is None or type(payload) == bytes`, parse() accepts and reproduces [.., b''] + enc_algo, and a zero-length body is a legal value for enc_algo='mqtt' (MQTT PUBLISH may carry an empty body) and for any x_ algorithm; its loss is keyed as ONE mechanism per class (C03/<Class>/payload-empty/lost/<where>)",
     "a null in the Arguments position of a kwargs-only message (what 6 of the 7 payload classes emit and accept) is not asserted against: args None == [] is a documented equivalence of the round trip; only a message the library cannot read back is reported",
@@ -48,6 +57,14 @@ DECIDING = {
     "received_reserialized": 1000,
     "batch_messages_compared": 500,
     "cache_attacks": 100,
+    "cache_sequences": lambda tier: 300 if tier == "quick" else 30000,
+    "cache_sequence_receives": lambda tier: 100 if tier == "quick" else 10000,
+    "huge_roundtrips": lambda tier: 150 if tier == "quick" else 2500,
+    "huge_over_2p24_roundtrips": lambda tier: 0 if tier == "quick" else 16,
+    "huge_mixed_batches": lambda tier: 8 if tier == "quick" else 32,
+    "deep_cases": lambda tier: 0 if tier == "quick" else 30000,
+    "float_nonfinite_roundtrips": lambda tier: 0 if tier == "quick" else 10000,
+    "batch_sizes": lambda tier: 16 if tier == "quick" else 28,
     "is_binary_checked": 5000,
     "classes": 25,
     "serializer_variants": 8,
@@ -55,6 +72,12 @@ DECIDING = {
 }
 
 BATCH_SIZES = (1, 2, 3, 17)
+# thorough: batch size per 7th case (257 additionally every 700 cases), sub-seed passes with the deep payload generator
+BATCH_SCHEDULE_T = (1, 2, 3, 5, 17, 64, 3, 5, 2, 17)
+BATCH_SIZES_T = (1, 2, 3, 5, 17, 64, 257)
+BASE_DRAWS = {"quick": 2, "thorough": 4}
+SUBSEEDS_T = 6
+DEEP_DRAWS_T = 2
 PAYLOAD_TRIPLE = ("payload", "enc_algo", "enc_key", "enc_serializer")
 
 
@@ -157,8 +180,10 @@ class Monitor:
         return bad
 
     # -- one message through everything ---------------------------------------------------------
-    def run_case(self, spec, label, mode, f, nul_prefix, case, only_ser=None):
+    def run_case(self, spec, label, mode, f, skip, case, only_ser=None):
+        """``skip``: serializer families (json/msgpack/cbor/ubjson) this case must not be sent through (True == json only)."""
         R, M = self.R, self.M
+        skip = _skipset(skip)
         msg = G.make(M, self.Rl, spec.name, f)
         expected = G.fields_view(spec, f)
         R.seen("classes", spec.name)
@@ -181,8 +206,8 @@ class Monitor:
         for sid, ser, batched in self.sers:
             if only_ser and sid != only_ser:
                 continue
-            if nul_prefix and sid.startswith("json"):
-                R.count("json_skipped_nul_prefix")
+            if sid.split(".")[0] in skip:
+                R.count("skipped_unspecified_for_serializer")
                 continue
             R.count("evaluations")
             R.seen("serializer_variants", sid)
@@ -210,6 +235,14 @@ class Monitor:
                             {"bytes": data[:200].hex()}, case)
                 continue
             R.count("roundtrips_compared")
+            if mode.startswith("huge-"):
+                R.count("huge_roundtrips")
+                R.seen("huge_size_classes", "%s|>=2^%d" % (sid, 24 if len(data) >= 1 << 24 else (20 if len(data) >= 1 << 20 else 16)))
+                if len(data) >= 1 << 24:
+                    R.count("huge_over_2p24_roundtrips")
+            for kind in case.get("kinds", ()):
+                if kind in ("float-nonfinite", "float-tiny"):
+                    R.count(kind.replace("-", "_") + "_roundtrips")
             self.compare(spec, expected, out[0], sid, mode, case, msg, reported)
             if "<exception>" not in reported:
                 self.reserialize_received(sid, ser, spec, out[0], 0, 1, case)
@@ -242,13 +275,13 @@ class Monitor:
 
     # -- batches --------------------------------------------------------------------------------
     def run_batch(self, items, case):
-        """items: list of (spec, msg, expected, mode, nul_prefix, jenc(fields))"""
+        """items: list of (spec, msg, expected, mode, skip-set, encoded fields[, fields])"""
         R = self.R
         n = len(items)
         for sid, ser, batched in self.sers:
             if not batched:
                 continue
-            its = [it for it in items if not (it[4] and sid.startswith("json"))]
+            its = [it for it in items if sid.split(".")[0] not in _skipset(it[4])]
             if len(its) != n:
                 continue
             R.count("evaluations")
@@ -303,9 +336,12 @@ class Monitor:
                             i, n, type(again[0]).__name__), {"n": n, "index": i}, case)
 
     # -- serialization cache --------------------------------------------------------------------
-    def cache_attack(self, spec, f, rng, case, nul_prefix=False):
+    def cache_attack(self, spec, f, rng, case, skip=False):
         R, M = self.R, self.M
-        sers = [s for s in self.sers if not (nul_prefix and s[0].startswith("json"))]
+        skip = _skipset(skip)
+        sers = [s for s in self.sers if s[0].split(".")[0] not in skip]
+        if len(sers) < 2:
+            return
         (sa, serA, ba), (sb, serB, bb) = rng.sample(sers, 2)
         msg = G.make(M, self.Rl, spec.name, f)
         R.count("evaluations")
@@ -370,6 +406,94 @@ class Monitor:
         R.seen("nontrivial", "cache|%s|%s|%s" % (spec.name, sa, sb))
 
 
+    def cache_sequence(self, spec, f, seq_seed, case, skip=False):
+        """Program of S(erialize over one of 3..8 serializer instances) / M(utate an attribute + uncache()) / R(eceive: go on
+        with the object unserialize() returned) steps on ONE message object.  Oracle for every S: the octets decode to what a
+        FRESH object with the current field values gives through the same serializer (and are identical to the fresh
+        object's octets while the object is still the constructed one)."""
+        R, M = self.R, self.M
+        rng = random.Random(seq_seed)
+        skip = _skipset(skip)
+        sers = [s for s in self.sers if s[0].split(".")[0] not in skip]
+        if len(sers) < 3:
+            return
+        chosen = rng.sample(sers, rng.randint(3, len(sers)))
+        case = dict(case, seq_seed=seq_seed)
+        cur = dict(f)
+        try:
+            obj = G.make(M, self.Rl, spec.name, cur)
+        except Exception:
+            return
+        cands = D.mutation_candidates(spec, cur)
+        built, last_back, counter, trace = True, None, 0, []
+        R.count("evaluations")
+        R.count("cache_sequences")
+        for step in range(rng.randint(6, 12)):
+            x = rng.random()
+            if step and x >= 0.55 and x < 0.85 and cands:
+                attr = rng.choice(cands)
+                counter += 1
+                new = D.mutate_value(spec, cur, attr, rng, counter)
+                f2 = dict(cur)
+                f2[attr] = new
+                if not G.admissible(spec, f2):
+                    continue
+                try:
+                    setattr(obj, attr, new)
+                except AttributeError:
+                    cands.remove(attr)
+                    R.count("cache_no_setter")
+                    continue
+                obj.uncache()
+                cur = f2
+                last_back = None          # what was received before the mutation no longer carries the current values
+                trace.append("M:" + attr)
+                R.count("cache_sequence_mutations")
+                continue
+            if step and x >= 0.85 and last_back is not None:
+                obj, built, last_back = last_back, False, None
+                trace.append("R")
+                R.count("cache_sequence_receives")
+                continue
+            sid, ser, batched = rng.choice(chosen)
+            trace.append("S:" + sid)
+            try:
+                fresh = ser.serialize(G.make(M, self.Rl, spec.name, cur))
+                want = ser.unserialize(*fresh)
+                assert len(want) == 1
+                want_view = G.attr_view(spec, want[0])
+            except Exception:
+                R.count("cache_sequence_aborted")      # the message itself does not round-trip: reported by run_case
+                return
+            try:
+                d, isb = ser.serialize(obj)
+                back = ser.unserialize(d, isb)
+            except Exception as e:
+                R.violation("C03/cache/sequence/exception-%s/%s" % (type(e).__name__, sid),
+                            "step %d of %s raised %r" % (step, " ".join(trace), e), {"trace": trace}, case)
+                return
+            R.count("cache_sequence_serializations")
+            if len(back) != 1 or type(back[0]).__name__ != spec.name or G.attr_view(spec, back[0]) != want_view:
+                R.violation("C03/cache/sequence/stale-or-foreign-octets/%s" % sid,
+                            "after %s the octets produced for %s do not carry the object's current field values (%d message(s) back)" % (
+                                " ".join(trace), sid, len(back)), {"trace": trace, "bytes": d[:120].hex(), "fresh": fresh[0][:120].hex()}, case)
+                return
+            if built and d != fresh[0]:
+                R.violation("C03/cache/sequence/octets-differ-from-fresh/%s" % sid,
+                            "after %s the octets for %s differ from those of a fresh object with the same field values" % (" ".join(trace), sid),
+                            {"trace": trace, "bytes": d[:120].hex(), "fresh": fresh[0][:120].hex()}, case)
+                return
+            last_back = back[0]
+        R.seen("nontrivial", "cacheseq|%s|%d|%s" % (spec.name, len(chosen), "".join(t[0] for t in trace)))
+        R.seen("cache_sequence_shapes", "".join(t[0] for t in trace))
+
+
+def _skipset(skip):
+    if skip is True:
+        return frozenset(("json",))
+    return frozenset(skip or ())
+
+
 # ------------------------------------------------------------------------------------------------
 def start(R):
     mods = _load()
@@ -386,48 +510,134 @@ def start(R):
     return Monitor(R, mods, sers)
 
 
+class _Driver:
+    """Feeds generated cases to the monitor and interleaves batches / cache attacks / cache sequences."""
+
+    def __init__(self, mon, R, tier, seed, part):
+        self.mon, self.R, self.tier, self.seed, self.part = mon, R, tier, seed, part
+        self.thorough = tier == "thorough"
+        self.rng = random.Random("%s/c03/%d" % (seed, part))
+        self.ring = []
+        self.ring_cap = 320 if self.thorough else 64
+        self.ncase = 0
+        self.nbatch = 0
+
+    def one(self, spec, k, label, mode, f, pg, gen="base", sub=None):
+        mon, R, rng = self.mon, self.R, self.rng
+        skip = D.skip_bases(pg)
+        case = {"class": spec.name, "k": k, "label": label, "mode": mode, "fields": G.jenc(f), "nul_prefix": pg.nul_prefix,
+                "skip": sorted(skip), "kinds": sorted(pg.kinds), "gen": gen}
+        if sub is not None:
+            case["subseed"] = sub
+        msg, expected, ok = mon.run_case(spec, label, mode, f, skip, case)
+        for kind in pg.kinds:
+            R.seen("payload_value_kinds", kind)
+        R.count(gen + "_cases")
+        self.ncase += 1
+        ncase = self.ncase
+        if not ok:
+            return            # already reported; do not let one defect show up again as batch/cache noise
+        self.ring.append((spec, msg, expected, mode, skip, case["fields"], f))
+        if len(self.ring) > self.ring_cap:
+            self.ring.pop(rng.randrange(len(self.ring)))
+        if ncase % 7 == 0:
+            sched = BATCH_SCHEDULE_T if self.thorough else BATCH_SIZES
+            self.batch(sched[(ncase // 7) % len(sched)])
+        if self.thorough and ncase % 700 == 0:
+            self.batch(257)
+        if ncase % 5 == 0:
+            mon.cache_attack(spec, f, rng, case, skip)
+        if ncase % (3 if self.thorough else 9) == 0:
+            mon.cache_sequence(spec, f, "%s/c03/seq/%d/%d" % (self.seed, self.part, ncase), case, skip)
+
+    def batch(self, n, items=None):
+        mon, rng = self.mon, self.rng
+        if items is None:
+            if len(self.ring) < n:
+                return
+            items = rng.sample(self.ring, n)
+        self.nbatch += 1
+        if self.thorough and self.nbatch % 2 and n <= 17:
+            # fresh objects: serialize() really runs inside the batch (ring objects carry their cached octets)
+            items = [(it[0], G.make(mon.M, mon.Rl, it[0].name, it[6]), it[2], it[3], it[4], it[5], it[6]) if len(it) > 6 else it
+                     for it in items]
+        mon.run_batch(items, _batch_case(items))
+
+    def huge(self):
+        """Messages around 2^16, >= 2^20 and (thorough) > 2^24 serialized octets, alone and inside mixed batches."""
+        mon, R = self.mon, self.R
+        keep = []
+        for p, only in D.huge_plan(self.tier, self.seed, self.part, NSHARDS[self.tier]):
+            spec, f, mode = D.huge_fields(p)
+            skip = frozenset(b for b in D.BASES if only is not None and b not in only)
+            case = {"class": spec.name, "label": "%s/huge" % spec.name, "mode": mode, "fields": {"$huge": p}, "skip": sorted(skip),
+                    "kinds": [mode], "gen": "huge"}
+            msg, expected, ok = mon.run_case(spec, case["label"], mode, f, skip, case)
+            R.count("huge_cases")
+            if not ok:
+                continue
+            item = (spec, msg, expected, mode, skip, case["fields"], f)
+            if p["size"] >= 1 << 24:
+                smalls = self.rng.sample(self.ring, 2) if len(self.ring) >= 2 else []
+                self.batch(0, [x for x in (smalls[:1] + [item] + smalls[1:])])
+                msg.uncache()
+            elif p["size"] <= (1 << 20) + 8192 and len(keep) < (8 if self.thorough else 2):
+                keep.append(item)
+            else:
+                msg.uncache()
+        # mixed batches: small, huge(2^16), small, huge(2^20), small ...
+        for r in range(4 if self.thorough else 1):
+            hs = self.rng.sample(keep, min(len(keep), 2 + r % 2))
+            if not hs or len(self.ring) < len(hs) + 1:
+                break
+            smalls = self.rng.sample(self.ring, len(hs) + 1)
+            items = [smalls[0]]
+            for hmsg, sm in zip(hs, smalls[1:]):
+                items += [hmsg, sm]
+            self.batch(0, items)
+            R.count("huge_mixed_batches")
+        for it in keep:
+            it[1].uncache()
+
+
 def run_shard(params, R):
     mon = start(R)
     if mon is None:
         return
     tier, seed, part, parts = params["tier"], params["seed"], params["part"], params["parts"]
-    draws = 2 if tier == "quick" else 3
-    rng = random.Random("%s/c03/%d" % (seed, part))
-    ring = []
-    ncase = 0
+    drv = _Driver(mon, R, tier, seed, part)
+    # (A) the enumeration of the grammar table: option subsets x payload modes x draws
     for spec in G.SPECS:
-        for k, label, mode, f, pg in G.gen_cases(spec, seed, tier, draws, part, parts):
-            case = {"class": spec.name, "k": k, "label": label, "mode": mode, "fields": G.jenc(f), "nul_prefix": pg.nul_prefix,
-                    "kinds": sorted(pg.kinds)}
-            msg, expected, ok = mon.run_case(spec, label, mode, f, pg.nul_prefix, case)
-            for kind in pg.kinds:
-                R.seen("payload_value_kinds", kind)
-            ncase += 1
-            if not ok:
-                continue      # already reported; do not let one defect show up again as batch/cache noise
-            ring.append((spec, msg, expected, mode, pg.nul_prefix, case["fields"]))
-            if len(ring) > 64:
-                ring.pop(rng.randrange(len(ring)))
-            if ncase % 7 == 0:
-                n = BATCH_SIZES[(ncase // 7) % len(BATCH_SIZES)]
-                if len(ring) >= n:
-                    items = rng.sample(ring, n)
-                    mon.run_batch(items, _batch_case(items))
-            if ncase % 5 == 0:
-                mon.cache_attack(spec, f, rng, case, pg.nul_prefix)
-    # every batch size with maximally heterogeneous content at least once per shard
-    for n in BATCH_SIZES:
-        if len(ring) >= n:
+        for k, label, mode, f, pg in G.gen_cases(spec, seed, tier, BASE_DRAWS[tier], part, parts):
+            drv.one(spec, k, label, mode, f, pg)
+    # (B) thorough: several sub-seeds' worth of re-seeded subsets / value rotations with the deep payload generator
+    if tier == "thorough":
+        for j in range(SUBSEEDS_T):
+            sub = "%s~%d" % (seed, j)
+            for spec in G.SPECS:
+                for k, label, mode, f, pg in D.gen_deep_cases(spec, sub, DEEP_DRAWS_T, part, parts):
+                    drv.one(spec, k, label, mode, f, pg, "deep", sub)
+    # (C) huge messages
+    drv.huge()
+    # (D) every batch size with maximally heterogeneous content at least once per shard
+    for n in (BATCH_SIZES_T if tier == "thorough" else BATCH_SIZES):
+        if len(drv.ring) >= n:
             byclass = {}
-            for it in ring:
+            for it in drv.ring:
                 byclass.setdefault(it[0].name, it)
-            items = (list(byclass.values()) + ring)[:n]
+            items = (list(byclass.values()) + drv.ring)[:n]
             mon.run_batch(items, _batch_case(items))
     R.note("serializers", [s[0] for s in mon.sers])
 
 
 def _batch_case(items):
-    return {"batch": [{"class": it[0].name, "mode": it[3], "nul_prefix": it[4], "fields": it[5]} for it in items]}
+    return {"batch": [{"class": it[0].name, "mode": it[3], "skip": sorted(_skipset(it[4])), "fields": it[5]} for it in items]}
+
+
+def _case_skip(c):
+    if "skip" in c:
+        return frozenset(c["skip"])
+    return frozenset(("json",)) if c.get("nul_prefix") else frozenset()
 
 
 def replay(case, R):
@@ -438,17 +648,19 @@ def replay(case, R):
         items = []
         for b in case["batch"]:
             spec = G.BY_NAME[b["class"]]
-            f = G.jdec(b["fields"])
+            f = D.dec_fields(b["fields"])
             items.append((spec, G.make(mon.M, mon.Rl, spec.name, f), G.fields_view(spec, f), b.get("mode", "none"),
-                          b.get("nul_prefix", False), b["fields"]))
+                          _case_skip(b), b["fields"], f))
         mon.run_batch(items, case)
         return
     if "class" not in case:
         return
     spec = G.BY_NAME[case["class"]]
-    f = G.jdec(case["fields"])
-    mon.run_case(spec, case.get("label", "replay"), case.get("mode", "none"), f, case.get("nul_prefix", False), case)
-    mon.cache_attack(spec, f, random.Random(0), case, case.get("nul_prefix", False))
+    f = D.dec_fields(case["fields"])
+    skip = _case_skip(case)
+    mon.run_case(spec, case.get("label", "replay"), case.get("mode", "none"), f, skip, case)
+    mon.cache_attack(spec, f, random.Random(0), case, skip)
+    mon.cache_sequence(spec, f, case.get("seq_seed", "replay"), case, skip)
 
 
 MANIFEST_ENTRY = {
@@ -458,12 +670,19 @@ MANIFEST_ENTRY = {
              "astral/combining unicode and +-2^53 integers), are sent through the real serialize()/unserialize() of JSON, "
              "MsgPack, CBOR and UBJSON, batched and unbatched, and directly through marshal()/parse(). The returned objects "
              "are compared attribute by attribute (never with Message.__eq__) and by normalised marshal(); batches of "
-             "1/2/3/17 heterogeneous messages must come back in number and order; the is_binary flag is checked against the "
-             "produced bytes (JSON: valid UTF-8 JSON text); the per-object serialization cache is attacked (A, then B, then "
-             "mutate+uncache()). Held = no deviation on the executions listed in the evidence; not a proof."),
+             "1/2/3/17 (thorough: up to 64 and 257) heterogeneous messages must come back in number and order, and every "
+             "received message re-serialized over the same serializer must come out as that one message; the is_binary flag "
+             "is checked against the produced bytes (JSON: valid UTF-8 JSON text); messages of >= 2^16 and >= 2^20 (thorough: "
+             "> 2^24) serialized octets are sent alone and inside mixed batches (length-prefix framing checked by an independent "
+             "decoder); the per-object serialization cache is attacked (A, then B, then mutate+uncache(); programs of "
+             "serialize / mutate+uncache / go-on-with-the-received-object steps over 3-8 serializer instances, each compared "
+             "with a fresh object). Thorough adds several sub-seeds of deep payloads (depth 24, 8 KiB strings/binaries, all "
+             "integer width boundaries up to +-2^53, binary64 edge values, NaN/inf through MsgPack/CBOR). Held = no deviation "
+             "on the executions listed in the evidence; not a proof."),
     "note": ("trusts vf/wamp_grammar.py (cross-checked against the code at start-up; drift => inconclusive), the documented "
              "equivalences (absent == default, empty args/kwargs == absent, tuple == list), stdlib json/msgpack/cbor2/bjdata as "
-             "independent decoders for the is_binary check; JSON strings starting with U+0000, NaN/inf/subnormal floats and "
-             "ints beyond +-2^53 are outside the statement and not generated"),
+             "independent decoders for the is_binary check; JSON strings starting with U+0000, ints beyond +-2^53, NaN/inf "
+             "through JSON/UBJSON and subnormal floats through UBJSON are outside the statement and not generated; messages "
+             "beyond 2^32 octets are not generated"),
     "technique": "runtime monitoring: generated valid inputs through the real serializers, attribute-wise round-trip oracle from an independent grammar table",
 }
